@@ -822,8 +822,15 @@ def _unify_var(
     """Helper function for unification of type or const variables."""
     if var in subst:
         return unify(subst[var], t, subst)
-    if isinstance(t, ExistentialTypeVar) and t in subst:
+    if isinstance(t, ExistentialTypeVar | ExistentialConstVar) and t in subst:
         return unify(var, subst[t], subst)
+    # Occurs check: we also have to look through the variables that are already solved,
+    # otherwise we could produce a cyclic substitution
+    for _ in range(len(subst) + 1):
+        resolved = t.substitute(subst)
+        if resolved == t:
+            break
+        t = resolved
     if var in t.unsolved_vars:
         return None
     return {var: t, **subst}
